@@ -45,6 +45,11 @@ class IntrCancel(asyncio.CancelledError):
     pass
 
 
+# an interrupt that is a plain StopIteration instance (code that forwards "whatever I caught"): a valid
+# argument of task_throw, but one that Future.set_exception() rejects (`type(exc) is StopIteration`)
+IntrStop = StopIteration
+
+
 class FutExc(Exception):
     pass
 
@@ -220,7 +225,7 @@ class World:
         return None
 
     def exc_code(self, e):
-        if isinstance(e, (IntrPlain, IntrCancel)):
+        if isinstance(e, (IntrPlain, IntrCancel, IntrStop)):
             return f"i{e.id}"
         if isinstance(e, FutExc):
             return f"F{e.fid}"
@@ -396,6 +401,8 @@ class World:
         self.tags.add("obs-" + ("outside" if ctx == "S" else "callback" if ctx == "I" else "in-task"))
         if other_bound:
             self.tags.add("other-bound-handle-in-ready")
+        if len(rd) >= 17:
+            self.tags.add("ready-queue-of-17-or-more")
         if any("!" in s for s in ts):
             self.tags.add("must-cancel-pending")
         if any(s.startswith("w") for s in rd):
@@ -510,11 +517,11 @@ class World:
             t = a[1] % len(self.tasks)
             if self.kinds[t] != "p":
                 return
-            self.do_throw(t, bool(a[2]), who)
+            self.do_throw(t, a[2], who)
         else:
             raise HarnessBug(f"unknown action {a}")
-        if self.mode != "drain":
-            self.observe()
+        if self.mode != "drain" and self.pc > self.case.get("no_obs_until", 0):
+            self.observe()       # (long set-up sequences of the size-parametrised stream observe once, at their end)
 
     def do_throw_class(self, t, cls):
         task = self.tasks[t]
@@ -560,7 +567,7 @@ class World:
             self.observe()
 
     def new_exc(self, cd):
-        e = IntrCancel() if cd else IntrPlain()
+        e = IntrStop() if cd == 2 else (IntrCancel() if cd else IntrPlain())   # cd: 0 plain, 1 CancelledError, 2 StopIteration
         e.id = self.nexc
         self.excs[e.id] = e
         self.nexc += 1
@@ -598,7 +605,10 @@ class World:
         except AssertionError:
             ok = False
             self.problem("task_throw failed an internal assertion", "")
-        self.emit(f"throw {t} {int(cd)}", f"{'ok' if ok else 'refused'} {e.id}")
+        except Exception as ex:          # noqa: BLE001 - anything else: a refusal of a kind nobody promised
+            ok = False
+            self.tags.add("throw-raised-" + type(ex).__name__)
+        self.emit(f"throw {t} {int(cd == 1)}", f"{'ok' if ok else 'refused'} {e.id}")
         self.account_throw(t, e, ok, was_blocked, who, before, pre)
 
     def _quiet_obs(self):
@@ -693,14 +703,25 @@ class World:
                 self.problem("task_throw refused for a pending cancellation, but the cancellation was lost",
                              f"task {wid} got {code}")
 
+    @staticmethod
+    def unwrap(e):
+        """PEP 479: a StopIteration raised inside a generator(-based awaitable) surfaces as
+        RuntimeError with the StopIteration as its cause"""
+        if isinstance(e, RuntimeError) and isinstance(e.__cause__, IntrStop):
+            return e.__cause__
+        return e
+
     def deliver(self, wid, e):
+        e = self.unwrap(e)
+        if isinstance(e, IntrStop):
+            return                       # recorded when its step began (see on_begin)
         code = self.exc_code(e)
         self.log.append(f"{wid}:{code}")
         self.check_expected_cancel(wid, code)
         if code.startswith("?"):
             # nothing in a worker raises this by itself: it came out of asynkit's machinery
             self.problem(f"task_throw / task_interrupt machinery raised {type(e).__name__}", repr(e)[:200])
-        if isinstance(e, (IntrPlain, IntrCancel)):
+        if isinstance(e, (IntrPlain, IntrCancel, IntrStop)):
             hit = False
             for th in self.throws:
                 if th["id"] == e.id:
@@ -734,7 +755,7 @@ class World:
                     self.bug = e
                     raise
                 self.deliver(wid, e)
-                swallow = catch == "all" or (catch == "intr" and isinstance(e, (IntrPlain, IntrCancel)))
+                swallow = catch == "all" or (catch == "intr" and isinstance(self.unwrap(e), (IntrPlain, IntrCancel, IntrStop)))
                 if not swallow:
                     self.marker = ("finish",)
                     raise
@@ -768,7 +789,7 @@ class World:
             t = op[1] % len(self.tasks)
             if self.kinds[t] != "p":
                 return
-            await self.do_interrupt(wid, t, bool(op[2]))
+            await self.do_interrupt(wid, t, op[2])
         elif k == "icls":
             if not self.tasks:
                 return
@@ -829,15 +850,18 @@ class World:
         self.marker = ("interrupt", t, e, was_blocked, before)
         try:
             await self.intr.task_interrupt(task, e)
-        except (IntrPlain, IntrCancel):
+        except (IntrPlain, IntrCancel, IntrStop):
             self.tags.add("interrupted-while-inside-task_interrupt")
             raise
-        except RuntimeError:
-            if self.handles_run != n0 or self.marker is None or self.marker[0] != "interrupt":
+        except Exception as ex:          # noqa: BLE001
+            if self.handles_run != n0 or self.marker is None or self.marker[0] != "interrupt" \
+                    or isinstance(ex, FutExc):
                 raise
+            if not isinstance(ex, RuntimeError):
+                self.tags.add("throw-raised-" + type(ex).__name__)
             # refused synchronously by task_throw
             self.marker = None
-            self.emit(f"throw {t} {int(cd)}", f"refused {e.id}")
+            self.emit(f"throw {t} {int(cd == 1)}", f"refused {e.id}")
             self.account_throw(t, e, False, was_blocked, wid, before, pre)
             if self.mode != "drain":
                 self.observe()
@@ -855,7 +879,7 @@ class World:
         self.marker = ("none",)          # if it is accepted after all, the caller suspends in sleep(0)
         try:
             await self.intr.task_interrupt(task, cls)
-        except (IntrPlain, IntrCancel, FutExc):
+        except (IntrPlain, IntrCancel, IntrStop, FutExc):
             raise
         except BaseException as e:       # noqa: BLE001
             if self.handles_run != n0:
@@ -884,6 +908,18 @@ class World:
         if self.mode != "drain":
             self.emit("begin", f"ok {kind}")
             self.mode = "task" if c[0] in ("s", "w") else "idle"
+        if c[0] == "s" and isinstance(c[2], IntrStop) and not self.tasks[c[1]]._must_cancel:
+            # A StopIteration instance is handed to coro.throw() now.  What the body then sees depends on what it
+            # is suspended in (a C FutureIter takes it for its own completion and `await` just returns; a generator
+            # turns it into RuntimeError, PEP 479; a never-started coroutine "returns"), so the delivery is
+            # recorded here, from the handle, and not from the body.
+            self.log.append(f"{c[1]}:i{c[2].id}")
+            for th in self.throws:
+                if th["id"] == c[2].id:
+                    th["delivered"] += 1
+                    th["outcome_delivered"] = True
+            if self.expect_next and self.expect_next[1] == c[2].id:
+                self.expect_next = None
         if c[0] == "o":
             self.note_cancel(c[1])
         if self.expect_next is not None:
@@ -940,12 +976,16 @@ class World:
         if task.cancelled():
             e = arg if isinstance(arg, IntrCancel) else asyncio.CancelledError()
         else:
-            e = task.exception()
+            e = self.unwrap(task.exception())
+            if isinstance(arg, IntrStop) and (e is None or isinstance(e, RuntimeError)):
+                # a StopIteration thrown into a coroutine that never started comes straight back out of
+                # coro.throw() and Task.__step takes it for the coroutine's return: the task ends, with a result
+                return                   # recorded when its step began (see on_begin)
         if e is None:
             raise HarnessBug("never-started task finished without exception")
         self.log.append(f"{t}:{self.exc_code(e)}")
         self.check_expected_cancel(t, self.exc_code(e))
-        if isinstance(e, (IntrPlain, IntrCancel)):
+        if isinstance(e, (IntrPlain, IntrCancel, IntrStop)):
             for th in self.throws:
                 if th["id"] == e.id:
                     th["delivered"] += 1
